@@ -19,6 +19,8 @@ import (
 	"math"
 	"math/rand"
 	"reflect"
+	"runtime"
+	"runtime/debug"
 	"sort"
 	"strconv"
 	"strings"
@@ -698,10 +700,15 @@ type cbSubject struct {
 	prepare  func(decoded encoder, original encoder)     // carries encoder-only parameters over (compression level)
 	fill     string
 	features string
+	analyse  bool   // measure which fields the encoder carries and compare them with the decoded value
+	before   func() // runs right before the first encode (e.g. puts the decompressor pools into a given state)
 }
 
 // cbRun records encode (both passes), decode, re-encode, second decode of one value.
 func cbRun(rec *vRec, s *cbSubject, sum *cbSummary) (encoded bool) {
+	if s.before != nil {
+		s.before()
+	}
 	buf, prep, real, eerr, epanic, prepDone, eerrk := cbEncode(s.value)
 	key := fmt.Sprintf("%s/v%d", s.name, s.version)
 	if eerr != "" && !prepDone {
@@ -717,6 +724,7 @@ func cbRun(rec *vRec, s *cbSubject, sum *cbSummary) (encoded bool) {
 	}
 	ev := kv{"name": s.name, "kind": s.kind, "ver": int(s.version), "hasmap": s.hasMap, "fill": s.fill, "shape": shape,
 		"eerr": eerr, "epanic": epanic, "eerrk": eerrk, "derrk": "", "rerrk": "", "d2errk": "", "reshape": "",
+		"fcar": "", "fdec": "", "fdiff": "", "nleaf": 0, "ncar": 0,
 		"preplen": prep.total, "reallen": real.total, "buflen": len(buf),
 		"prepext": cbExtents(prep.pushes, false), "realext": cbExtents(real.pushes, true),
 		"fields":  cbPushRows(real.pushes, true),
@@ -746,6 +754,23 @@ func cbRun(rec *vRec, s *cbSubject, sum *cbSummary) (encoded bool) {
 			}
 			if s.prepare != nil {
 				s.prepare(asEnc, s.value)
+			}
+			if s.analyse {
+				var y interface{} = asEnc
+				var x encoder = s.value
+				if fe, ok := asEnc.(*cbFramedEnc); ok {
+					y = fe.r.body
+				}
+				if r, ok := s.value.(*request); ok {
+					x = r.body
+				}
+				if reflect.TypeOf(x) != reflect.TypeOf(y) {
+					// allocateBody maps the key to another Go type (ConsumerMetadataRequest -> FindCoordinatorRequest): no common paths
+				} else if fr, ok := cfAnalyse(x, y); ok {
+					ev["fcar"], ev["fdec"], ev["fdiff"], ev["nleaf"], ev["ncar"] = fr.Carried, fr.Decoded, fr.Diff, fr.Leaves, fr.NCarr
+					sum.Leaves += fr.Leaves
+					sum.Carried += fr.NCarr
+				}
 			}
 			if decBody != nil {
 				ev["reshape"] = cbShape(decBody) // collection shape of the decoded value (cause signature for findings)
@@ -798,6 +823,8 @@ type cbSummary struct {
 	Samples  []string          `json:"samples"`
 	Never    []string          `json:"never_encoded"`
 	Distinct int               `json:"distinct_nontrivial"`
+	Leaves   int               `json:"fields_examined"`
+	Carried  int               `json:"fields_carried_and_compared"`
 	// nested collections actually encoded, per relation of the inner length to the length of the collection around it
 	Nested       map[string]int      `json:"nested_shapes"`
 	NestedType   map[string][]string `json:"nested_shapes_missing_by_type"`
@@ -1599,7 +1626,7 @@ func cbBodySubject(b cbBody, version int16, mode int, rng *rand.Rand, framed boo
 	if attempt > 0 {
 		fill += "+retry" + strconv.Itoa(attempt)
 	}
-	s := &cbSubject{name: name, version: version, fill: fill,
+	s := &cbSubject{name: name, version: version, fill: fill, analyse: !framed && (mode < len(cbShapes) || mode%5 == 0),
 		hasMap: cbHasMap(reflect.TypeOf(body), map[reflect.Type]bool{})}
 	s.prepare = func(dec, orig encoder) { cbCarryLevels(reflect.ValueOf(dec), reflect.ValueOf(orig), 0) }
 	if framed {
@@ -1693,6 +1720,68 @@ func cbRecordSubjects(rng *rand.Rand, mode int) []*cbSubject {
 	return out
 }
 
+// A valid value must round-trip whatever the decompressor saw before: per codec, on COLD reader pools (two GCs empty
+// every sync.Pool), first an undecodable but CRC-valid batch is decoded (the zero-byte payload a compacted-away batch
+// keeps, or bytes that are not a stream of that codec; its outcome is not judged), then a valid batch / legacy
+// message set of that codec goes through the usual encode / decode / re-encode clauses.
+func cbAfterUndecodableSubjects(rng *rand.Rand) []*cbSubject {
+	var out []*cbSubject
+	for codec := CompressionGZIP; codec <= CompressionZSTD; codec++ {
+		for _, variant := range []string{"empty-payload", "foreign-payload"} {
+			codec, variant := codec, variant
+			poison := func() {
+				debug.SetGCPercent(-1) // keep what the poison leaves in the pools until the valid value is decoded
+				runtime.GC()
+				runtime.GC()
+				payload := []byte{}
+				if variant == "foreign-payload" {
+					payload = []byte("this is not a compressed stream of any codec")
+				}
+				p := &RecordBatch{Version: 2, Codec: codec, compressedRecords: payload}
+				var buf []byte
+				if cdSafe(func() (e error) { buf, e = encode(p, nil); return }, nil) == nil {
+					_ = cdSafe(func() error { return decode(buf, &RecordBatch{}) }, nil)
+				}
+			}
+			f := &cbFill{rng: rng, mode: 1, shape: cbShapeOf(1), pos: -1}
+			b := f.recordBatch(codec, true)
+			out = append(out, &cbSubject{name: "RecordBatch", kind: "batch", version: int16(codec),
+				fill: fmt.Sprintf("after-undecodable/%s/%s", variant, codec), value: b, before: poison, analyse: true,
+				fresh: func() (decoder, versionedDecoder, encoder) { n := &RecordBatch{}; return n, nil, n },
+				prepare: func(dec, orig encoder) {
+					dec.(*RecordBatch).CompressionLevel = orig.(*RecordBatch).CompressionLevel
+				}})
+			if codec != CompressionZSTD {
+				ms := f.messageSet(codec, 1)
+				out = append(out, &cbSubject{name: "MessageSet", kind: "msgset", version: int16(codec)*2 + 1,
+					fill: fmt.Sprintf("after-undecodable/%s/%s", variant, codec), value: ms, before: poison,
+					fresh: func() (decoder, versionedDecoder, encoder) { n := &MessageSet{}; return n, nil, n },
+					prepare: func(dec, orig encoder) {
+						cbCarryLevels(reflect.ValueOf(dec), reflect.ValueOf(orig), 0)
+					}})
+			}
+		}
+	}
+	return out
+}
+
+// many records that compress to fewer bytes than there are records (the record count of a batch is not a byte count)
+func cbManyTinySubjects() []*cbSubject {
+	var out []*cbSubject
+	for _, codec := range []CompressionCodec{CompressionNone, CompressionGZIP, CompressionSnappy, CompressionLZ4, CompressionZSTD} {
+		b := &RecordBatch{Version: 2, Codec: codec, CompressionLevel: CompressionLevelDefault, FirstTimestamp: time.Unix(1600000000, 0), MaxTimestamp: time.Unix(1600000000, 0)}
+		for i := 0; i < 5000; i++ {
+			b.Records = append(b.Records, &Record{Value: []byte("a")})
+		}
+		out = append(out, &cbSubject{name: "RecordBatch", kind: "batch", version: int16(codec), fill: fmt.Sprintf("many-tiny-records/%s", codec), value: b,
+			fresh: func() (decoder, versionedDecoder, encoder) { n := &RecordBatch{}; return n, nil, n },
+			prepare: func(dec, orig encoder) {
+				dec.(*RecordBatch).CompressionLevel = orig.(*RecordBatch).CompressionLevel
+			}})
+	}
+	return out
+}
+
 func TestVerifCodecBody(t *testing.T) {
 	cdLimitMemory()
 	rec := vOpenRec(t, "trace.ndjson")
@@ -1734,6 +1823,15 @@ func TestVerifCodecBody(t *testing.T) {
 		for _, s := range cbRecordSubjects(vRand(int64(900000+mode)), mode) {
 			cbRun(rec, s, sum)
 		}
+	}
+	rec.Reset(kv{"part": "records", "name": "after-undecodable", "ver": 0})
+	gcp := debug.SetGCPercent(100)
+	for _, s := range cbAfterUndecodableSubjects(vRand(950000)) {
+		cbRun(rec, s, sum)
+	}
+	debug.SetGCPercent(gcp)
+	for _, s := range cbManyTinySubjects() {
+		cbRun(rec, s, sum)
 	}
 	rec.Close()
 	// every body x version that has a collection inside a collection must have been encoded in every nested shape class
